@@ -37,6 +37,16 @@ var (
 	vpPoolModeV int
 )
 
+// vpReset clears per-run native state (hooked by other harness files through vpResetHooks).
+var vpResetHooks []func()
+
+func vpReset() {
+	vpPoolModeV = 0
+	for _, h := range vpResetHooks {
+		h()
+	}
+}
+
 func vpRegister(name string, fn func()) { vpHarnesses = append(vpHarnesses, vpHarnessEnt{name, fn}) }
 
 func vpNext(w uint8) uint64 {
